@@ -12,7 +12,7 @@
              table): it must be the same multiset
    Observation of the implementation: T [L terminated; T delivered ids]. *)
 From Coq Require Import List NArith Bool Arith.
-From AdltV Require Import Base.Obs Pipe.Kahn Pipe.Loss Pipe.Shared Pipe.Consumer Pipe.Incr.
+From AdltV Require Import Base.Obs Pipe.Kahn Pipe.Loss Pipe.Shared Pipe.Consumer Pipe.Incr Pipe.Plugins.
 Import ListNotations.
 Open Scope N_scope.
 
@@ -238,8 +238,10 @@ Definition remote_model (c : remote_case) : otree :=
              disappeared; (2, j, []) = the j-th message handed to the outflow
      pats    followers behind a rendezvous channel that look at the table after the sends marked 1 (and once at the end)
      runs    (capacity, interleaving): followers behind real channels of that capacity, real threads
-   Observation: T [T per pattern; T per run] of the follower's table at the end, restricted to the lifecycles of the final
-   table, in the order of their ids: T [L id; L refresh idx; L ecu; L nr_msgs; L start; L end].
+   Observation: T [T per pattern; T per run; L d] - the follower's table at the end, restricted to the lifecycles of the final
+   table, in the order of their ids: T [L id; L refresh idx; L ecu; L nr_msgs; L start; L end]; d = number of (key, number of
+   values) pairs seen by any look at the real table with a number of values other than 1 (evmap keeps a bag per key; the
+   lifecycle stage replaces values or removes keys, so readers may unwrap get_one()).
    The model must find the freshness invariant on the events ([fresh_b]); by C13_incremental_consumer_final_table every
    interleaving then ends with the final table, the seeded ones are executed. *)
 Definition incr_ev := (N * N * list (N * list N))%type.
@@ -257,19 +259,79 @@ Definition incr_model (c : incr_case) : otree :=
   T [T (map (fun pat => follower_obs fin (ipoll (iscript (n + 1) 0 (map (fun b => negb (b =? 0)) pat) (iinit evs)))) pats);
      T (map (fun '(cap, sched) =>
                let cp := N.to_nat cap in
-               follower_obs fin (ipoll (ifinish (2 * n + 2) cp (irun cp (map N.to_nat sched) (iinit evs))))) runs)].
+               follower_obs fin (ipoll (ifinish (2 * n + 2) cp (irun cp (map N.to_nat sched) (iinit evs))))) runs);
+     (* keys of the table without exactly one value, over all looks of all followers: the table of the model is a map *)
+     L 0].
 Definition incr_agree (c : incr_case) (o : otree) : bool :=
   let '(evl, pats, runs) := c in
   fresh_b 0 (incr_events evl) && otree_eqb (incr_model c) o.
 
-Definition case_C13 := (pipe_case + (loss_case + (shared_case + (remote_case + incr_case))))%type.
+(* ---------------------------------------------------------------------------------------------------
+   Specified pipelines: every stage is described by its SPECIFICATION (evaluated by the harness on the input, not taken
+   from a run of the code) as a chain of rejecting plugins (Pipe/Plugins.v):
+     lifecycle detection      = the empty chain (forwards everything, in order), error policy 1
+     plugins_process_msgs     = one reject set per plugin of the chain, in the order of the chain (a scripted plugin: the
+                                indices it is told to reject; the FileTransfer plugin with keepFLDA:false: the FLDA messages
+                                of its apid/ctid; a plugin that only rewrites: the empty set)
+     filter_as_streams        = one reject set: the messages that do not pass the filters
+     caps, dropat, sched, input as for the pipeline cases above.
+   Observation: T [L terminated; T delivered ids; T per stage (T number of messages each plugin of the chain has seen)]
+   (the third component is empty for runs with a consumer drop: how far a stage got is then a matter of timing). *)
+Definition spec_case := (list N * option N * list N * list N * list (N * list (list N)))%type.
+
+Definition spec_stage (policy : N) (rejs : list (list N)) : @stage N (list N) :=
+  let g := rej_chain rejs in
+  {| init := init g; step_fn := step_fn g; flush := flush g;
+     on_err := fun flushing s pd =>
+       match policy with
+       | 0 => RAbort
+       | _ => if flushing then RAbort else match tl pd with [] => RFlush | _ :: _ => RCont s 0 end
+       end |}.
+
+Definition spec_build (c : spec_case) : @pipe N (list N) * list (@stage N (list N)) :=
+  let '(caps, dropat, sched, input, stages) := c in
+  let gs := map (fun '(pol, rejs) => spec_stage pol rejs) stages in
+  let cap0 := match caps with c0 :: _ => N.to_nat c0 | [] => 1%nat end in
+  let rest := nat_caps (tl caps) in
+  let gsc := combine gs (rest ++ repeat 1%nat (length gs - length rest)) in
+  (init_pipe [] input cap0 gsc, gs).
+
+Definition spec_run (c : spec_case) : bool * list N * list (list N) :=
+  let '(caps, dropat, sched, input, stages) := c in
+  let '(p0, _) := spec_build c in
+  let s := map N.to_nat sched in
+  let fuel := (40 * (length input + 4) * (length stages + 2) + 100)%nat in
+  let '(p, fin) := exec fuel (option_map N.to_nat dropat) s s p0 in
+  (fin && all_done p, delivered p, tl (final_states p)).
+
+Definition counts_obs (dropat : option N) (cs : list (list N)) : otree :=
+  match dropat with None => T (map (fun l => T (map L l)) cs) | Some _ => T [] end.
+
+Definition spec_model (c : spec_case) : otree :=
+  let '(caps, dropat, sched, input, stages) := c in
+  let '(t, d, cs) := spec_run c in
+  T [ob t; T (map L d); counts_obs dropat cs].
+
+Definition agree_spec (c : spec_case) (o : otree) : bool :=
+  let '(caps, dropat, sched, input, stages) := c in
+  let '(t, d, cs) := spec_run c in
+  let '(_, gs) := spec_build c in
+  let full := compose gs input in
+  (* the model agrees with its theorems on this case: the sequential result, which is the selection of the input by the
+     verdicts, stage after stage *)
+  (match dropat with None => list_eqb d full | Some k => list_eqb d (firstn (N.to_nat k) full) end) && t &&
+  list_eqb full (fold_left (fun l '(pol, rejs) => select (accepted (map rej_plugin rejs) (map (fun _ => 0) rejs) l) l) stages input) &&
+  otree_eqb (spec_model c) o.
+
+Definition case_C13 := (pipe_case + (loss_case + (shared_case + (remote_case + (incr_case + spec_case)))))%type.
 Definition run_C13 (c : case_C13) : otree :=
   match c with
   | inl p => run_pipe p
   | inr (inl l) => T (loss_model l)
   | inr (inr (inl sh)) => T (shared_model sh)
   | inr (inr (inr (inl r))) => remote_model r
-  | inr (inr (inr (inr i))) => incr_model i
+  | inr (inr (inr (inr (inl i)))) => incr_model i
+  | inr (inr (inr (inr (inr s)))) => spec_model s
   end.
 Definition agree_C13 (c : case_C13) (o : otree) : bool :=
   match c with
@@ -277,5 +339,6 @@ Definition agree_C13 (c : case_C13) (o : otree) : bool :=
   | inr (inl l) => loss_selfcheck l && otree_eqb (T (loss_model l)) o
   | inr (inr (inl sh)) => pbs_b [] (shared_events sh) && otree_eqb (T (shared_model sh)) o
   | inr (inr (inr (inl r))) => otree_eqb (remote_model r) o
-  | inr (inr (inr (inr i))) => incr_agree i o
+  | inr (inr (inr (inr (inl i)))) => incr_agree i o
+  | inr (inr (inr (inr (inr s)))) => agree_spec s o
   end.
